@@ -1,1 +1,1403 @@
-fn main() { verif_common::machinery_error("engine not built yet"); }
+//! rt_domain — in-process half of property C20 (domain guards).
+//!
+//! Bounded-exhaustive enumeration of guard strings, hosts and guard pairs, executed against the
+//! real validator + `matchit_pattern` of pavexc (hook H4), a real `matchit::Router` (same crate
+//! version as the compiler's conflict detector and the generated server) and a replica of the
+//! generated host normalisation (checked against the generator source at run time), compared with
+//! the reference model in `reference.rs`.
+mod reference;
+mod subject;
+
+use reference::{Guard, Host, Verdict};
+use serde_json::{Value, json};
+use std::collections::{BTreeMap, BTreeSet, HashMap};
+use std::sync::Mutex;
+use std::sync::atomic::{AtomicUsize, Ordering};
+use subject::{Detect, GeneratedNormaliser, Real};
+use verif_common::{Tier, machinery_error};
+
+/// Insertion order of the compiler's conflict detector, recovered from its source at start-up.
+static DETECTOR: std::sync::OnceLock<subject::DetectorModel> = std::sync::OnceLock::new();
+
+fn detector() -> subject::DetectorModel {
+    *DETECTOR.get().expect("detector model initialised in main")
+}
+
+fn sorted_only() -> bool {
+    detector().order == subject::DetectorOrder::Sorted
+}
+
+/// Conflict detection for a pair of (guard, pattern) in the order (first, second), replicating
+/// `detect_domain_conflicts`; `NotApplicable` if neither the compiler nor the generated code can
+/// ever insert in this order.
+fn detect_pair(first: (&str, &str), second: (&str, &str), is_sorted_order: bool) -> (Detect, Option<matchit::Router<u32>>) {
+    if !is_sorted_order && sorted_only() {
+        return (Detect::NotApplicable, None);
+    }
+    let (d, r) = subject::detect(&[first.1, second.1]);
+    if d == Detect::Accepted && detector().ambiguity_check {
+        match subject::ambiguous_hook(first.0, second.0) {
+            Some(Ok(true)) => return (Detect::Conflict { with: format!("{} (is_ambiguous_with)", first.0) }, r),
+            Some(Ok(false)) => {}
+            other => machinery_error(&format!("ambiguity hook failed on accepted guards {:?} / {:?}: {other:?}", first.0, second.0)),
+        }
+    }
+    (d, r)
+}
+
+const GUARD_ALPHABET: &[u8] = b"a1-.{}*_";
+const HOST_ALPHABET: &[u8] = b"ab1-.";
+
+struct Cfg {
+    /// all guard strings up to this length
+    guard_len: usize,
+    /// guards up to this length enter the pair square
+    pair_guard_len: usize,
+    /// all host strings up to this length (well-formed ones get a verdict)
+    host_len: usize,
+    /// plus every host of <= 3 labels whose labels have at most this many characters
+    host_label_len: usize,
+    /// pairs of guards that both have at most this length: full square, hosts up to pair_host_len
+    pair_full_len: usize,
+    /// host strings up to this length are used for the pair law (full-square pairs)
+    pair_host_len: usize,
+    /// all other pairs: same-shape pairs and pairs of shape representatives only, hosts up to this
+    pair_host_len_small: usize,
+}
+
+fn cfg_for(tier: Tier, args: &verif_common::Args) -> Cfg {
+    let mut c = match tier {
+        Tier::Quick => Cfg {
+            guard_len: 6,
+            pair_guard_len: 6,
+            pair_full_len: 0,
+            host_len: 6,
+            host_label_len: 2,
+            pair_host_len: 5,
+            pair_host_len_small: 5,
+        },
+        Tier::Thorough => Cfg {
+            guard_len: 9,
+            pair_guard_len: 7,
+            pair_full_len: 6,
+            host_len: 7,
+            host_label_len: 2,
+            pair_host_len: 6,
+            pair_host_len_small: 5,
+        },
+    };
+    let num = |k: &str| args.extra(k).and_then(|v| v.parse::<usize>().ok());
+    if let Some(v) = num("guard-len") {
+        c.guard_len = v;
+    }
+    if let Some(v) = num("pair-guard-len") {
+        c.pair_guard_len = v;
+    }
+    if let Some(v) = num("host-len") {
+        c.host_len = v;
+    }
+    if let Some(v) = num("pair-host-len") {
+        c.pair_host_len = v;
+    }
+    if let Some(v) = num("pair-full-len") {
+        c.pair_full_len = v;
+    }
+    if let Some(v) = num("pair-host-len-small") {
+        c.pair_host_len_small = v;
+    }
+    c.pair_host_len_small = c.pair_host_len_small.min(c.pair_host_len);
+    c
+}
+
+// ---------------------------------------------------------------------------------------------
+// Violations
+// ---------------------------------------------------------------------------------------------
+
+#[derive(Debug, Clone)]
+struct Finding {
+    key: String,
+    what: String,
+    case: Value,
+}
+
+/// One defect, few keys: routing mismatches are first keyed by the guard's feature set
+/// (`route:real-…:ref-…:guard[L,P,dot]:host[dot]`). If, for the same outcome and host form,
+/// * the same feature set without `dot` also fails, the `dot` variant is folded into it;
+/// * the plainest guards (`[L]`, literal labels only) fail too, the guard is irrelevant and
+///   everything is folded into `guard[any]`.
+fn collapse_route_keys(findings: &mut [Finding]) {
+    let keys: BTreeSet<String> = findings.iter().map(|f| f.key.clone()).collect();
+    let split = |k: &str| -> Option<(String, String, String)> {
+        let k = k.strip_prefix("route:")?;
+        let g = k.find(":guard[")?;
+        let h = k.find("]:host[")?;
+        Some((k[..g].to_string(), k[g + 7..h].to_string(), k[h + 7..k.len() - 1].to_string()))
+    };
+    for f in findings.iter_mut() {
+        let Some((outcome, feats, host)) = split(&f.key) else { continue };
+        let mk = |feats: &str| format!("route:{outcome}:guard[{feats}]:host[{host}]");
+        if keys.contains(&mk("L")) {
+            f.key = mk("any");
+            continue;
+        }
+        if let Some(base) = feats.strip_suffix(",dot") {
+            if keys.contains(&mk(base)) {
+                f.key = mk(base);
+            }
+        }
+    }
+}
+
+fn feature_set(g: &Guard, raw: &str) -> String {
+    let mut s: BTreeSet<&str> = g.class().split('.').map(|x| match x {
+        "L" => "L",
+        "P" => "P",
+        "Pt" => "Pt",
+        "C" => "C",
+        _ => "Ct",
+    }).collect();
+    if raw.ends_with('.') {
+        s.insert("dot");
+    }
+    s.into_iter().collect::<Vec<_>>().join(",")
+}
+
+/// Names of the parameters of a matchit pattern, in pattern order.
+fn pattern_param_names(pattern: &str) -> Vec<String> {
+    let mut out = Vec::new();
+    let mut rest = pattern;
+    while let Some(i) = rest.find('{') {
+        let after = &rest[i + 1..];
+        let Some(j) = after.find('}') else { break };
+        out.push(after[..j].trim_start_matches('*').to_string());
+        rest = &after[j + 1..];
+    }
+    out
+}
+
+/// Oracle 1 (validator) + oracle 1b (parameter names survive into the pattern, the pattern is
+/// accepted by matchit). Slow path, used for confirmation and replay.
+fn check_validator(guard: &str) -> Option<Finding> {
+    let real = subject::real_guard(guard);
+    let refv = reference::validate(guard);
+    let case = json!({"kind": "validator", "guard": guard});
+    match (&real, &refv) {
+        (Real::Panicked { message }, _) => Some(Finding {
+            key: "validator:panic".into(),
+            what: format!("validator panicked on guard {guard:?}: {message}"),
+            case,
+        }),
+        (Real::Accepted { pattern }, Err(r)) => Some(Finding {
+            key: format!("validator:real-accepts:ref-rejects({})", r.as_str()),
+            what: format!(
+                "guard {guard:?} is accepted by the real validator (pattern {pattern:?}) but the documented rules reject it: {}",
+                r.as_str()
+            ),
+            case,
+        }),
+        (Real::Rejected { message }, Ok(g)) => Some(Finding {
+            key: format!("validator:real-rejects({}):ref-accepts", subject::error_class(message)),
+            what: format!(
+                "guard {guard:?} (class {}) is valid under the documented rules but the real validator rejects it: {message}",
+                g.class()
+            ),
+            case,
+        }),
+        (Real::Rejected { .. }, Err(_)) => None,
+        (Real::Accepted { pattern }, Ok(g)) => {
+            let mut names = pattern_param_names(pattern);
+            names.reverse();
+            if names != g.param_names() {
+                return Some(Finding {
+                    key: "pattern:param-names-not-preserved".into(),
+                    what: format!(
+                        "guard {guard:?} names its parameters {:?} but the router pattern {pattern:?} binds {:?}",
+                        g.param_names(),
+                        names
+                    ),
+                    case,
+                });
+            }
+            let (d, _) = subject::detect(&[pattern.as_str()]);
+            if d != Detect::Accepted {
+                return Some(Finding {
+                    key: format!("matchit-rejects-accepted-guard({})", feature_set(g, guard)),
+                    what: format!(
+                        "guard {guard:?} is accepted, but its pattern {pattern:?} cannot be inserted in a matchit router: {d:?} (the compiler hits unreachable!/the generated server panics at start-up)"
+                    ),
+                    case,
+                });
+            }
+            None
+        }
+    }
+}
+
+fn verdict_str(v: Verdict) -> &'static str {
+    match v {
+        Verdict::Match => "match",
+        Verdict::NoMatch => "nomatch",
+        Verdict::Unspecified => "unspecified",
+    }
+}
+
+/// Oracle 2 (routing of one host through a single-guard router). Slow path.
+/// Returns (real routed?, reference verdict, finding).
+fn check_route(norm: &GeneratedNormaliser, guard: &str, host: &str) -> (Option<bool>, Option<Verdict>, Option<Finding>) {
+    let (Real::Accepted { pattern }, Ok(g)) = (subject::real_guard(guard), reference::validate(guard)) else {
+        return (None, None, None);
+    };
+    let (d, router) = subject::detect(&[pattern.as_str()]);
+    if d != Detect::Accepted {
+        return (None, None, None);
+    }
+    let router = router.unwrap();
+    let h = Host::new(host);
+    if !h.well_formed {
+        return (None, None, None);
+    }
+    let real = match norm.apply(host.as_bytes()) {
+        Some(n) => router.at(&n).is_ok(),
+        None => false,
+    };
+    let refv = reference::matches(&g, &h);
+    let bad = match refv {
+        Verdict::Match => !real,
+        Verdict::NoMatch => real,
+        Verdict::Unspecified => false,
+    };
+    let f = bad.then(|| Finding {
+        key: format!(
+            "route:real-{}:ref-{}:guard[{}]:host[{}]",
+            if real { "match" } else { "nomatch" },
+            verdict_str(refv),
+            feature_set(&g, guard),
+            if h.trailing_dot { "dot" } else { "nodot" }
+        ),
+        what: format!(
+            "guard {guard:?} (pattern {pattern:?}) vs Host {host:?} (normalised {:?}): the router {} but the documented semantics say {}",
+            norm.apply(host.as_bytes()),
+            if real { "matches" } else { "does not match" },
+            verdict_str(refv)
+        ),
+        case: json!({"kind": "route", "guard": guard, "host": host}),
+    });
+    (Some(real), Some(refv), f)
+}
+
+#[derive(Debug, Clone, Copy, PartialEq, Eq, Hash, PartialOrd, Ord)]
+enum PairClass {
+    RejectedOverlapping,
+    RejectedEqualSets,
+    RejectedDisjointOnUniverse,
+    AcceptedDisjoint,
+    AcceptedStrictSpecificity,
+}
+
+impl PairClass {
+    fn as_str(&self) -> &'static str {
+        match self {
+            PairClass::RejectedOverlapping => "rejected,overlapping",
+            PairClass::RejectedEqualSets => "rejected,equal-match-sets",
+            PairClass::RejectedDisjointOnUniverse => "rejected,disjoint-on-host-universe",
+            PairClass::AcceptedDisjoint => "accepted,disjoint",
+            PairClass::AcceptedStrictSpecificity => "accepted,overlap-with-strictly-more-specific-winner",
+        }
+    }
+}
+
+/// Oracle 3 (pair law) on an explicit list of hosts. Slow path (confirmation / replay); the
+/// explorer uses a bitset fast path, which must agree.
+/// `skip_panic`: do not report a panicking insert order (it has its own key), judge the law with
+/// the insertion order(s) that work.
+fn check_pair(norm: &GeneratedNormaliser, g1: &str, g2: &str, hosts: &[String], skip_panic: bool) -> (Option<PairClass>, Option<Finding>) {
+    let (Real::Accepted { pattern: p1 }, Ok(r1)) = (subject::real_guard(g1), reference::validate(g1)) else {
+        return (None, None);
+    };
+    let (Real::Accepted { pattern: p2 }, Ok(r2)) = (subject::real_guard(g2), reference::validate(g2)) else {
+        return (None, None);
+    };
+    let case = json!({"kind": "pair", "g1": g1, "g2": g2, "hosts": hosts, "skip_panic": skip_panic});
+    // The generated server inserts in `BTreeMap<DomainGuard, _>` order = byte order of the
+    // normalised guard strings; the compiler checks in registration order (either) unless its
+    // source says it sorts too.
+    let runtime_is_12 = g1.trim_end_matches('.') <= g2.trim_end_matches('.');
+    let (d12, router12) = detect_pair((g1, &p1), (g2, &p2), runtime_is_12);
+    let (d21, router21) = detect_pair((g2, &p2), (g1, &p1), !runtime_is_12);
+    if !skip_panic {
+        for (d, first, second) in [(&d12, g1, g2), (&d21, g2, g1)] {
+            if let Detect::Panicked { message } = d {
+                return (None, Some(Finding {
+                    key: "pair:conflict-detector-panics-in-matchit-insert".into(),
+                    what: format!("guards {first:?} then {second:?} (both accepted; patterns {p1:?}, {p2:?}): building the matchit router the way detect_domain_conflicts / the generated domain_router() do PANICS inside matchit::Router::insert ({message}); orders: [{g1:?},{g2:?}] -> {d12:?}, [{g2:?},{g1:?}] -> {d21:?}"),
+                    case: json!({"kind": "pair", "g1": g1, "g2": g2, "hosts": [], "skip_panic": false}),
+                }));
+            }
+        }
+    }
+    for d in [&d12, &d21] {
+        if let Detect::OtherInsertError { error } = d {
+            return (None, Some(Finding {
+                key: "pair:insert-error-other-than-conflict".into(),
+                what: format!("guards {g1:?} + {g2:?} (patterns {p1:?}, {p2:?}): matchit insert fails with {error}, which detect_domain_conflicts treats as unreachable!"),
+                case,
+            }));
+        }
+    }
+    let unusable = |d: &Detect| matches!(d, Detect::Panicked { .. } | Detect::NotApplicable);
+    if unusable(&d12) && unusable(&d21) {
+        return (None, None);
+    }
+    let (d_runtime, d_other) = if runtime_is_12 { (&d12, &d21) } else { (&d21, &d12) };
+    if *d_other == Detect::Accepted && matches!(d_runtime, Detect::Conflict { .. }) {
+        return (None, Some(Finding {
+            key: "pair:accepted-by-detector-but-generated-router-conflicts".into(),
+            what: format!("guards {g1:?} + {g2:?} (patterns {p1:?}, {p2:?}): registered in one order the conflict detector accepts them ({d_other:?}), but the generated domain_router() inserts in sorted order, where matchit reports {d_runtime:?} and the unwrap panics at start-up"),
+            case,
+        }));
+    }
+    // verdicts that differ by order where the sorted order works are only counted (a spurious
+    // rejection in one registration order is not forbidden by the property)
+    let accepted = d12 == Detect::Accepted || d21 == Detect::Accepted;
+    let router12 = if d12 == Detect::Accepted { router12 } else { None };
+    let router21 = if d21 == Detect::Accepted { router21 } else { None };
+    // reference match sets on the listed hosts
+    let hs: Vec<Host> = hosts.iter().map(|h| Host::new(h)).filter(|h| h.well_formed).collect();
+    let m1: Vec<Verdict> = hs.iter().map(|h| reference::matches(&r1, h)).collect();
+    let m2: Vec<Verdict> = hs.iter().map(|h| reference::matches(&r2, h)).collect();
+    let usable = |i: usize| m1[i] != Verdict::Unspecified && m2[i] != Verdict::Unspecified;
+    let same_shape = r1.shape() == r2.shape();
+    let overlap = (0..hs.len()).any(|i| usable(i) && m1[i] == Verdict::Match && m2[i] == Verdict::Match);
+    if !accepted {
+        let class = if same_shape {
+            PairClass::RejectedEqualSets
+        } else if overlap {
+            PairClass::RejectedOverlapping
+        } else {
+            PairClass::RejectedDisjointOnUniverse
+        };
+        return (Some(class), None);
+    }
+    if same_shape {
+        return (None, Some(Finding {
+            key: "pair:equal-match-sets-accepted".into(),
+            what: format!("guards {g1:?} and {g2:?} differ only in parameter names, so they match exactly the same hosts, yet the conflict detector accepts the pair (patterns {p1:?}, {p2:?})"),
+            case,
+        }));
+    }
+    // routing of every listed host through the two-guard router, both insertion orders
+    let mut winners: Vec<(usize, u32)> = Vec::new(); // (host index, winning guard 0/1) where both match
+    for (i, h) in hs.iter().enumerate() {
+        if !usable(i) {
+            continue;
+        }
+        let n = norm.apply(h.raw.as_bytes());
+        let lookup = |r: &Option<matchit::Router<u32>>, flip: bool| -> Option<Option<u32>> {
+            r.as_ref().map(|r| n.as_ref().and_then(|n| r.at(n).ok().map(|m| if flip { 1 - *m.value } else { *m.value })))
+        };
+        let a12 = lookup(&router12, false);
+        let a21 = lookup(&router21, true);
+        let one_case = json!({"kind": "pair", "g1": g1, "g2": g2, "hosts": [h.raw], "skip_panic": skip_panic});
+        if let (Some(x), Some(y)) = (a12, a21) {
+            if x != y {
+                return (None, Some(Finding {
+                    key: "pair:routing-depends-on-insertion-order".into(),
+                    what: format!("guards {g1:?} + {g2:?}, Host {:?}: inserted in this order the router picks {x:?}, in the opposite order {y:?} (0 = first guard, 1 = second)", h.raw),
+                    case: one_case,
+                }));
+            }
+        }
+        let got = a12.or(a21).unwrap();
+        let (x1, x2) = (m1[i] == Verdict::Match, m2[i] == Verdict::Match);
+        match (x1, x2, got) {
+            (false, false, Some(w)) => {
+                return (None, Some(Finding {
+                    key: "pair:host-matching-neither-is-routed".into(),
+                    what: format!("guards {g1:?} + {g2:?}: Host {:?} fits neither, but the two-guard router sends it to guard #{w}", h.raw),
+                    case: one_case,
+                }));
+            }
+            (true, false, got) if got != Some(0) => {
+                return (None, Some(Finding {
+                    key: format!("pair:host-matching-one-guard-{}", if got.is_none() { "is-dropped" } else { "goes-to-the-other" }),
+                    what: format!("guards {g1:?} + {g2:?}: Host {:?} fits only {g1:?}, but the two-guard router answers {got:?}", h.raw),
+                    case: one_case,
+                }));
+            }
+            (false, true, got) if got != Some(1) => {
+                return (None, Some(Finding {
+                    key: format!("pair:host-matching-one-guard-{}", if got.is_none() { "is-dropped" } else { "goes-to-the-other" }),
+                    what: format!("guards {g1:?} + {g2:?}: Host {:?} fits only {g2:?}, but the two-guard router answers {got:?}", h.raw),
+                    case: one_case,
+                }));
+            }
+            (true, true, None) => {
+                return (None, Some(Finding {
+                    key: "pair:host-matching-both-is-dropped".into(),
+                    what: format!("guards {g1:?} + {g2:?}: Host {:?} fits both, but the two-guard router matches nothing", h.raw),
+                    case: one_case,
+                }));
+            }
+            (true, true, Some(w)) => winners.push((i, w)),
+            _ => {}
+        }
+    }
+    if winners.is_empty() {
+        return (Some(PairClass::AcceptedDisjoint), None);
+    }
+    // clear priority: the winner must be strictly more specific than the loser
+    for (hi, w) in &winners {
+        let (mw, ml, gw, gl) = if *w == 0 { (&m1, &m2, g1, g2) } else { (&m2, &m1, g2, g1) };
+        if let Some(j) = (0..hs.len()).find(|&j| usable(j) && mw[j] == Verdict::Match && ml[j] == Verdict::NoMatch) {
+            return (None, Some(Finding {
+                key: "pair:overlap-accepted-without-specificity-order".into(),
+                what: format!(
+                    "guards {g1:?} + {g2:?} are accepted by the conflict detector although Host {:?} fits both; the router sends it to {gw:?}, which is not a special case of {gl:?} (Host {:?} fits {gw:?} but not {gl:?}), so there is no clear priority between them",
+                    hs[*hi].raw, hs[j].raw
+                ),
+                case: json!({"kind": "pair", "g1": g1, "g2": g2, "hosts": [hs[*hi].raw, hs[j].raw], "skip_panic": skip_panic}),
+            }));
+        }
+    }
+    (Some(PairClass::AcceptedStrictSpecificity), None)
+}
+
+// ---------------------------------------------------------------------------------------------
+// Host universe
+// ---------------------------------------------------------------------------------------------
+
+struct HostUniverse {
+    /// well-formed hosts (verdict)
+    hosts: Vec<Host>,
+    /// index into `keys` of the normalised form; None = the generated code finds no host at all
+    host_key: Vec<Option<usize>>,
+    /// ill-formed hosts (observation only): (raw, category, key)
+    odd: Vec<(String, &'static str, Option<usize>)>,
+    /// distinct normalised strings, i.e. what is actually looked up in the router
+    keys: Vec<String>,
+}
+
+fn all_strings(alphabet: &[u8], max_len: usize, mut f: impl FnMut(&str)) {
+    let mut buf: Vec<u8> = Vec::new();
+    fn rec(alphabet: &[u8], max_len: usize, buf: &mut Vec<u8>, f: &mut dyn FnMut(&str)) {
+        if !buf.is_empty() {
+            f(std::str::from_utf8(buf).unwrap());
+        }
+        if buf.len() == max_len {
+            return;
+        }
+        for &c in alphabet {
+            buf.push(c);
+            rec(alphabet, max_len, buf, f);
+            buf.pop();
+        }
+    }
+    rec(alphabet, max_len, &mut buf, &mut f);
+}
+
+fn odd_category(raw: &str) -> &'static str {
+    if raw.chars().all(|c| c == '.') {
+        "only-dots"
+    } else if raw.ends_with("..") && !raw.trim_end_matches('.').contains("..") && !raw.starts_with('.') {
+        "several-trailing-dots"
+    } else {
+        "empty-inner-or-leading-label"
+    }
+}
+
+fn build_hosts(cfg: &Cfg, norm: &GeneratedNormaliser) -> HostUniverse {
+    let mut raws: BTreeSet<String> = BTreeSet::new();
+    all_strings(HOST_ALPHABET, cfg.host_len, |s| {
+        raws.insert(s.to_string());
+    });
+    // every host of <= 3 labels with labels of <= host_label_len characters, with/without dot
+    let mut labels: Vec<String> = Vec::new();
+    all_strings(&HOST_ALPHABET[..4], cfg.host_label_len, |s| labels.push(s.to_string()));
+    for a in &labels {
+        raws.insert(a.clone());
+        raws.insert(format!("{a}."));
+        for b in &labels {
+            raws.insert(format!("{a}.{b}"));
+            raws.insert(format!("{a}.{b}."));
+            for c in &labels {
+                raws.insert(format!("{a}.{b}.{c}"));
+                raws.insert(format!("{a}.{b}.{c}."));
+            }
+        }
+    }
+    let mut u = HostUniverse { hosts: vec![], host_key: vec![], odd: vec![], keys: vec![] };
+    let mut key_ix: HashMap<String, usize> = HashMap::new();
+    for raw in raws {
+        let n = norm.apply(raw.as_bytes());
+        if let Some(hard_wired) = norm.hard_wired {
+            let q = hard_wired(raw.as_bytes());
+            if q != n {
+                machinery_error(&format!(
+                    "host normaliser interpreter disagrees with the hard-wired copy on {raw:?}: {n:?} vs {q:?}"
+                ));
+            }
+        }
+        let k = n.map(|n| {
+            *key_ix.entry(n.clone()).or_insert_with(|| {
+                u.keys.push(n);
+                u.keys.len() - 1
+            })
+        });
+        let h = Host::new(&raw);
+        if h.well_formed {
+            u.hosts.push(h);
+            u.host_key.push(k);
+        } else {
+            u.odd.push((raw.clone(), odd_category(&raw), k));
+        }
+    }
+    u
+}
+
+// ---------------------------------------------------------------------------------------------
+// Length edge cases
+// ---------------------------------------------------------------------------------------------
+
+fn edge_guards() -> Vec<String> {
+    let mut out: BTreeSet<String> = BTreeSet::new();
+    let a = |n: usize| "a".repeat(n);
+    let long_name = format!("p{}", "q".repeat(69));
+    // single label of effective length 62..=65, plain / param / catch-all, first or last, +- dot
+    for n in 62..=65usize {
+        let variants = vec![
+            a(n),
+            format!("{}-{}", a(n - 2), "1"),
+            format!("{{p}}{}", a(n - 1)),
+            format!("{{{long_name}}}{}", a(n - 1)),
+            format!("{{*p}}{}", a(n - 1)),
+            format!("{{*{long_name}}}{}", a(n - 1)),
+        ];
+        for v in variants {
+            for g in [v.clone(), format!("{v}.a1"), format!("a1.{v}"), format!("{{s}}.{v}")] {
+                out.insert(g.clone());
+                out.insert(format!("{g}."));
+            }
+        }
+    }
+    // total effective length 252..=255
+    for total in 252..=255usize {
+        // four labels: 63 + 63 + 63 + x, three dots
+        let x = total - 3 - 3 * 63;
+        let base = vec![a(63), a(63), a(63)];
+        let lasts = vec![a(x), format!("{{p}}{}", a(x - 1)), format!("{{{long_name}}}{}", a(x - 1))];
+        for last in &lasts {
+            let g = format!("{}.{}", base.join("."), last);
+            out.insert(g.clone());
+            out.insert(format!("{g}."));
+        }
+        let firsts = vec![
+            a(x),
+            format!("{{p}}{}", a(x - 1)),
+            format!("{{*p}}{}", a(x - 1)),
+            format!("{{*{long_name}}}{}", a(x - 1)),
+        ];
+        for first in &firsts {
+            let g = format!("{}.{}", first, base.join("."));
+            out.insert(g.clone());
+            out.insert(format!("{g}."));
+        }
+        // many short labels: `a.` repeated, parameters counting 1 each
+        let n_labels = (total + 1) / 2;
+        if total % 2 == 1 {
+            let g = vec!["a"; n_labels].join(".");
+            out.insert(g.clone());
+            out.insert(format!("{g}."));
+        }
+        // the 7 x 35/36 layout of the upstream unit test, generalised
+        let mut g = String::new();
+        let mut left = total;
+        while left > 36 {
+            g.push_str(&a(35));
+            g.push('.');
+            left -= 36;
+        }
+        g.push_str(&a(left));
+        out.insert(g.clone());
+        out.insert(format!("{g}."));
+    }
+    out.into_iter().collect()
+}
+
+/// Hosts derived from an (edge-case) guard: every parameter instantiated, plus near misses.
+fn derived_hosts(g: &Guard) -> Vec<String> {
+    use reference::Kind;
+    let mut out: BTreeSet<String> = BTreeSet::new();
+    for fill in ["b", "ab", "b.ab"] {
+        let mut labels: Vec<String> = Vec::new();
+        for l in &g.labels {
+            match l.kind {
+                Kind::Plain => labels.push(l.tail.clone()),
+                Kind::Param => labels.push(format!("{}{}", fill.replace('.', ""), l.tail)),
+                Kind::CatchAll => labels.push(format!("{fill}{}", l.tail)),
+            }
+        }
+        let h = labels.join(".");
+        out.insert(h.clone());
+        out.insert(format!("{h}."));
+        out.insert(format!("b.{h}"));
+        if h.len() > 1 {
+            out.insert(h[1..].to_string());
+            out.insert(h[..h.len() - 1].to_string());
+        }
+        if labels.len() > 1 {
+            out.insert(labels[1..].join("."));
+        }
+        // parameters left empty
+        let bare: Vec<String> = g.labels.iter().map(|l| l.tail.clone()).collect();
+        if bare.iter().all(|l| !l.is_empty()) {
+            out.insert(bare.join("."));
+        }
+    }
+    out.into_iter().filter(|h| !h.is_empty() && Host::new(h).well_formed).collect()
+}
+
+/// Extra guard strings outside the enumeration alphabet: identifier corner cases of `{name}`.
+fn extra_guards() -> Vec<String> {
+    [
+        "{fn}.a", "{self}.a", "{Self}.a", "{as}.a", "{_}.a", "{__}.a", "{a}.{a}", "{A}.a", "A.a", "{a}A",
+        "{*fn}.a", "{*_}.a", "{a}.{*a}", "{*a}.{*a}", "{*a}{a}", "{a}{*a}", "a.{a}b-", "{a}-b", "{a}--b", "xn--a.a",
+        "a--b", "é.a", "a.{*a}a", "a.{*a}a.a", "{a}.{*a}a", "a1.{*x}", "{*a}a.{a}a", "{a}.é", "a b", "a\t", "a/b", "{a/b}", "{a}/b", "a:1",
+    ]
+    .iter()
+    .map(|s| s.to_string())
+    .collect()
+}
+
+// ---------------------------------------------------------------------------------------------
+// Explorer
+// ---------------------------------------------------------------------------------------------
+
+#[derive(Default)]
+struct Stats {
+    guards: u64,
+    real_accept: u64,
+    real_reject: BTreeMap<&'static str, u64>,
+    ref_reject: BTreeMap<&'static str, u64>,
+    accepted_by_class: BTreeMap<String, u64>,
+    route_evals: u64,
+    route_hist: BTreeMap<String, u64>,
+    odd_hist: BTreeMap<String, u64>,
+    guards_matching_some_host: u64,
+    accepted: Vec<(String, String)>, // (guard, pattern) kept for the pair phase
+    findings: Vec<Finding>,
+    samples: Vec<Value>,
+    sample_classes: BTreeSet<String>,
+}
+
+impl Stats {
+    fn merge(&mut self, o: Stats) {
+        self.guards += o.guards;
+        self.real_accept += o.real_accept;
+        for (k, v) in o.real_reject {
+            *self.real_reject.entry(k).or_default() += v;
+        }
+        for (k, v) in o.ref_reject {
+            *self.ref_reject.entry(k).or_default() += v;
+        }
+        for (k, v) in o.accepted_by_class {
+            *self.accepted_by_class.entry(k).or_default() += v;
+        }
+        self.route_evals += o.route_evals;
+        for (k, v) in o.route_hist {
+            *self.route_hist.entry(k).or_default() += v;
+        }
+        for (k, v) in o.odd_hist {
+            *self.odd_hist.entry(k).or_default() += v;
+        }
+        self.guards_matching_some_host += o.guards_matching_some_host;
+        self.accepted.extend(o.accepted);
+        self.findings.extend(o.findings);
+        for v in o.samples {
+            let c = v["class"].as_str().unwrap_or_default().to_string();
+            if self.sample_classes.insert(c) {
+                self.samples.push(v);
+            }
+        }
+    }
+}
+
+/// Fast path for one guard string: validator comparison, then (if accepted) all hosts.
+fn explore_guard(
+    guard: &str,
+    u: &HostUniverse,
+    extra_hosts: Option<&[String]>,
+    norm: &GeneratedNormaliser,
+    keep_for_pairs: bool,
+    st: &mut Stats,
+    key_hits: &mut Vec<bool>,
+) {
+    st.guards += 1;
+    let real = subject::real_guard(guard);
+    let refv = reference::validate(guard);
+    match &real {
+        Real::Accepted { .. } => st.real_accept += 1,
+        Real::Rejected { message } => *st.real_reject.entry(subject::error_class(message)).or_default() += 1,
+        Real::Panicked { .. } => *st.real_reject.entry("PANIC").or_default() += 1,
+    }
+    if let Err(r) = &refv {
+        *st.ref_reject.entry(r.as_str()).or_default() += 1;
+    }
+    let (pattern, g) = match (&real, &refv) {
+        (Real::Accepted { pattern }, Ok(g)) => (pattern, g),
+        (Real::Rejected { .. }, Err(_)) => return,
+        _ => {
+            match check_validator(guard) {
+                Some(f) => st.findings.push(f),
+                None => machinery_error(&format!("nondeterministic validator verdict for {guard:?}")),
+            }
+            return;
+        }
+    };
+    *st.accepted_by_class.entry(g.class()).or_default() += 1;
+    // parameter names + insertability
+    let mut names = pattern_param_names(pattern);
+    names.reverse();
+    let (d1, router) = subject::detect(&[pattern.as_str()]);
+    let insert_ok = d1 == Detect::Accepted;
+    if names != g.param_names() || !insert_ok {
+        match check_validator(guard) {
+            Some(f) => st.findings.push(f),
+            None => machinery_error(&format!("pattern check for {guard:?} did not reproduce")),
+        }
+        if !insert_ok {
+            return;
+        }
+    }
+    let router = router.unwrap();
+    if keep_for_pairs {
+        st.accepted.push((guard.to_string(), pattern.clone()));
+    }
+    // routing: one lookup per distinct normalised host, one reference verdict per raw host
+    key_hits.clear();
+    key_hits.extend(u.keys.iter().map(|k| router.at(k).is_ok()));
+    let mut any = false;
+    let mut bad: Option<usize> = None;
+    let mut counts = [[0u64; 3]; 2];
+    for (i, h) in u.hosts.iter().enumerate() {
+        let real = u.host_key[i].map(|k| key_hits[k]).unwrap_or(false);
+        let refv = reference::matches(g, h);
+        counts[real as usize][refv as usize] += 1;
+        any |= real;
+        let mismatch = match refv {
+            Verdict::Match => !real,
+            Verdict::NoMatch => real,
+            Verdict::Unspecified => false,
+        };
+        if mismatch && bad.is_none() {
+            bad = Some(i);
+        }
+    }
+    st.route_evals += u.hosts.len() as u64;
+    for (r, row) in counts.iter().enumerate() {
+        for (v, n) in row.iter().enumerate() {
+            if *n > 0 {
+                let name = format!(
+                    "real={},ref={}",
+                    if r == 1 { "match" } else { "nomatch" },
+                    ["match", "nomatch", "unspecified"][v]
+                );
+                *st.route_hist.entry(name).or_default() += n;
+            }
+        }
+    }
+    if let Some(i) = bad {
+        // report every distinct key this guard produces (bounded by the key space), confirmed
+        let mut seen = BTreeSet::new();
+        for (j, h) in u.hosts.iter().enumerate().skip(i) {
+            let real = u.host_key[j].map(|k| key_hits[k]).unwrap_or(false);
+            let refv = reference::matches(g, h);
+            let mismatch = matches!((refv, real), (Verdict::Match, false) | (Verdict::NoMatch, true));
+            if mismatch && seen.insert((real, h.trailing_dot)) {
+                match check_route(norm, guard, &h.raw).2 {
+                    Some(f) => st.findings.push(f),
+                    None => machinery_error(&format!("routing mismatch for guard {guard:?} host {:?} did not reproduce", h.raw)),
+                }
+            }
+        }
+    }
+    if let Some(extra) = extra_hosts {
+        for h in extra {
+            let (real, refv, f) = check_route(norm, guard, h);
+            st.route_evals += 1;
+            if let (Some(real), Some(refv)) = (real, refv) {
+                any |= real;
+                *st.route_hist
+                    .entry(format!("real={},ref={}", if real { "match" } else { "nomatch" }, verdict_str(refv)))
+                    .or_default() += 1;
+            }
+            if let Some(f) = f {
+                st.findings.push(f);
+            }
+        }
+    }
+    // observation only: hosts that are not well-formed names
+    for (_, cat, k) in &u.odd {
+        let real = k.map(|k| key_hits[k]).unwrap_or(false);
+        *st.odd_hist.entry(format!("{cat}:{}", if real { "routed" } else { "not-routed" })).or_default() += 1;
+    }
+    if any {
+        st.guards_matching_some_host += 1;
+    }
+    if any && !st.sample_classes.contains(&g.class()) && st.sample_classes.insert(g.class()) {
+        let hit: Vec<&str> = u
+            .hosts
+            .iter()
+            .enumerate()
+            .filter(|(i, _)| u.host_key[*i].map(|k| key_hits[k]).unwrap_or(false))
+            .take(4)
+            .map(|(_, h)| h.raw.as_str())
+            .collect();
+        st.samples.push(json!({"guard": guard, "pattern": pattern, "class": g.class(), "some_hosts_routed": hit}));
+    }
+}
+
+fn parallel<T: Send, R: Send>(items: Vec<T>, threads: usize, f: impl Fn(T) -> R + Sync) -> Vec<R> {
+    let n = items.len();
+    let slots: Vec<Mutex<Option<T>>> = items.into_iter().map(|t| Mutex::new(Some(t))).collect();
+    let out: Vec<Mutex<Option<R>>> = (0..n).map(|_| Mutex::new(None)).collect();
+    let next = AtomicUsize::new(0);
+    std::thread::scope(|s| {
+        for _ in 0..threads.max(1) {
+            s.spawn(|| {
+                loop {
+                    let i = next.fetch_add(1, Ordering::Relaxed);
+                    if i >= n {
+                        break;
+                    }
+                    let item = slots[i].lock().unwrap().take().unwrap();
+                    let r = f(item);
+                    *out[i].lock().unwrap() = Some(r);
+                }
+            });
+        }
+    });
+    out.into_iter().map(|m| m.into_inner().unwrap().expect("worker result")).collect()
+}
+
+// ---------------------------------------------------------------------------------------------
+// Pair phase (fast path over bitsets; every finding is confirmed through `check_pair`)
+// ---------------------------------------------------------------------------------------------
+
+struct PairGuard {
+    raw: String,
+    pattern: String,
+    shape: String,
+    /// per pair-host key: reference says Match
+    m: Vec<u64>,
+    /// per pair-host key: reference verdict is Unspecified
+    unspec: Vec<u64>,
+}
+
+fn bit(v: &[u64], i: usize) -> bool {
+    v[i / 64] >> (i % 64) & 1 == 1
+}
+
+#[derive(Default)]
+struct PairStats {
+    pairs: u64,
+    full_pairs: u64,
+    lookups: u64,
+    hist: BTreeMap<&'static str, u64>,
+    findings: Vec<Finding>,
+    samples: BTreeMap<&'static str, Value>,
+}
+
+fn main() {
+    // The subject is allowed to panic only as a reported outcome; keep the default hook quiet.
+    // A panic anywhere else is the engine's own fault: machinery error, never a verdict.
+    std::panic::set_hook(Box::new(|info| {
+        if !subject::IN_SUBJECT.with(|f| f.get()) {
+            println!("MACHINERY-ERROR engine panicked: {info}");
+            eprintln!("MACHINERY-ERROR engine panicked: {info}");
+            std::process::exit(2);
+        }
+    }));
+    let args = verif_common::Args::parse();
+    if args.property != "C20" {
+        machinery_error(&format!("rt_domain serves C20 only, got {:?}", args.property));
+    }
+    let norm = match GeneratedNormaliser::from_source() {
+        Ok(n) => n,
+        Err(e) => machinery_error(&format!("generated host normalisation self-check: {e}")),
+    };
+    match subject::detector_model_from_source() {
+        Ok(o) => DETECTOR.set(o).unwrap(),
+        Err(e) => machinery_error(&format!("conflict detector self-check: {e}")),
+    }
+    if let Some(path) = &args.replay {
+        std::process::exit(replay(&norm, &verif_common::load_replay(path)));
+    }
+    let mut rep = verif_common::Reporter::from_args(&args);
+    let cfg = cfg_for(args.tier, &args);
+    let threads = std::thread::available_parallelism().map(|n| n.get()).unwrap_or(8).min(16);
+
+    // Self-check outcome: a changed (but understood) normalisation is followed by the engine and
+    // additionally reported as such, so it can never be missed silently.
+    let mut findings: Vec<Finding> = Vec::new();
+    if !norm.identical_to_expected {
+        println!(
+            "NOTE generated host normalisation changed: `{}` is none of the forms rt_domain has a hard-wired copy of ({:?}); the engine follows the source",
+            norm.chain_text,
+            subject::KNOWN_BODIES.iter().map(|(t, _)| *t).collect::<Vec<_>>()
+        );
+    }
+
+    let u = build_hosts(&cfg, &norm);
+    println!(
+        "hosts: {} well-formed ({} distinct normalised lookups), {} ill-formed (observation only)",
+        u.hosts.len(),
+        u.keys.len(),
+        u.odd.len()
+    );
+
+    // ---- phase 1+2: all guard strings, validator + routing ------------------------------------
+    // work items: every prefix of length 3 (each worker extends it to guard_len), plus the short ones
+    let mut items: Vec<String> = Vec::new();
+    let plen = 3usize.min(cfg.guard_len);
+    all_strings(GUARD_ALPHABET, plen, |s| items.push(s.to_string()));
+    items.push(String::new()); // the empty guard
+    verif_common::rotate_by_seed(&mut items, args.seed);
+    let results = parallel(items, threads, |prefix: String| {
+        let mut st = Stats::default();
+        let mut hits = Vec::new();
+        let mut visit = |g: &str, st: &mut Stats| {
+            let keep = g.len() <= cfg.pair_guard_len;
+            explore_guard(g, &u, None, &norm, keep, st, &mut hits);
+        };
+        visit(&prefix, &mut st);
+        if prefix.len() == plen && cfg.guard_len > plen {
+            all_strings(GUARD_ALPHABET, cfg.guard_len - plen, |suffix| {
+                let g = format!("{prefix}{suffix}");
+                visit(&g, &mut st);
+            });
+        }
+        st
+    });
+    let mut st = Stats::default();
+    for r in results {
+        st.merge(r);
+    }
+    let enumerated_guards = st.guards;
+    println!(
+        "guards<= {}: {} strings, {} accepted by the real validator, {} guard x host evaluations, wall {:.1}s",
+        cfg.guard_len, st.guards, st.real_accept, st.route_evals, rep.wall_s()
+    );
+
+    // ---- length edge cases + identifier corner cases -------------------------------------------
+    let mut edge = Stats::default();
+    let mut hits = Vec::new();
+    let mut edge_list = edge_guards();
+    edge_list.extend(extra_guards());
+    for g in &edge_list {
+        let derived = reference::validate(g).ok().map(|r| derived_hosts(&r));
+        explore_guard(g, &u, derived.as_deref(), &norm, false, &mut edge, &mut hits);
+    }
+    let edge_counts = json!({
+        "guards": edge.guards, "real_accept": edge.real_accept,
+        "real_reject": edge.real_reject, "ref_reject": edge.ref_reject,
+        "route_evaluations": edge.route_evals, "route_outcomes": edge.route_hist,
+    });
+    println!("edge cases: {edge_counts}");
+    findings.extend(edge.findings.drain(..));
+    findings.extend(st.findings.drain(..));
+
+    // ---- phase 3: the pair law ----------------------------------------------------------------
+    // pair universe: accepted guards of length <= pair_guard_len, one per normalised guard
+    // (`a` and `a.` are the same DomainGuard for the compiler).
+    let mut pair_guards_raw: Vec<(String, String)> =
+        st.accepted.iter().filter(|(g, _)| !g.ends_with('.')).cloned().collect();
+    pair_guards_raw.sort();
+    // pair host universe: well-formed hosts without trailing dot up to pair_host_len (the router
+    // only ever sees the normalised string, which is the same with and without the dot; the dot is
+    // exercised in phase 2), identified by their normalised key.
+    let mut pair_hosts: Vec<usize> = (0..u.hosts.len())
+        .filter(|&i| !u.hosts[i].trailing_dot && u.hosts[i].raw.len() <= cfg.pair_host_len && u.host_key[i].is_some())
+        .collect();
+    // shortest first, so that the small universe is a prefix of the bitsets
+    pair_hosts.sort_by_key(|&i| (u.hosts[i].raw.len(), i));
+    let n_small = pair_hosts.iter().filter(|&&i| u.hosts[i].raw.len() <= cfg.pair_host_len_small).count();
+    let n_all = pair_hosts.len();
+    let words = pair_hosts.len().div_ceil(64);
+    let pgs: Vec<PairGuard> = parallel(pair_guards_raw, threads, |(raw, pattern)| {
+        let g = reference::validate(&raw).unwrap();
+        let mut m = vec![0u64; words];
+        let mut unspec = vec![0u64; words];
+        for (b, &hi) in pair_hosts.iter().enumerate() {
+            match reference::matches(&g, &u.hosts[hi]) {
+                Verdict::Match => m[b / 64] |= 1 << (b % 64),
+                Verdict::Unspecified => unspec[b / 64] |= 1 << (b % 64),
+                Verdict::NoMatch => {}
+            }
+        }
+        PairGuard { raw, pattern, shape: g.shape(), m, unspec }
+    });
+    // representatives: first guard (in sorted order) of every shape
+    let mut rep_of_shape: BTreeMap<&str, usize> = BTreeMap::new();
+    for (i, g) in pgs.iter().enumerate() {
+        rep_of_shape.entry(g.shape.as_str()).or_insert(i);
+    }
+    let is_rep: Vec<bool> = (0..pgs.len()).map(|i| rep_of_shape[pgs[i].shape.as_str()] == i).collect();
+    let pair_keys: Vec<&str> = pair_hosts.iter().map(|&hi| u.keys[u.host_key[hi].unwrap()].as_str()).collect();
+    println!(
+        "pairs: {} guards ({} shapes); full square for guards <= {} on {} hosts; other pairs (same shape, or two shape representatives) on {} hosts",
+        pgs.len(),
+        rep_of_shape.len(),
+        cfg.pair_full_len,
+        n_all,
+        n_small
+    );
+    let mut rows: Vec<usize> = (0..pgs.len()).collect();
+    verif_common::rotate_by_seed(&mut rows, args.seed);
+    let pair_results = parallel(rows, threads, |i: usize| {
+        let mut ps = PairStats::default();
+        let a = &pgs[i];
+        for j in (i + 1)..pgs.len() {
+            let b = &pgs[j];
+            let same_shape = a.shape == b.shape;
+            let full = a.raw.len() <= cfg.pair_full_len && b.raw.len() <= cfg.pair_full_len;
+            if !full && !same_shape && !(is_rep[i] && is_rep[j]) {
+                continue;
+            }
+            // host universe of this pair: a prefix of the bitsets
+            let nbits = if full { n_all } else { n_small };
+            let nw = nbits.div_ceil(64);
+            let mask = |w: usize| -> u64 { if w + 1 == nw && nbits % 64 != 0 { (1u64 << (nbits % 64)) - 1 } else { !0u64 } };
+            ps.pairs += 1;
+            ps.full_pairs += full as u64;
+            let (d12, r12) = detect_pair((&a.raw, &a.pattern), (&b.raw, &b.pattern), true);
+            let (d21, r21) = detect_pair((&b.raw, &b.pattern), (&a.raw, &a.pattern), false);
+            let panicked = matches!(d12, Detect::Panicked { .. }) || matches!(d21, Detect::Panicked { .. });
+            if panicked {
+                *ps.hist.entry("(one insertion order panics inside matchit)").or_default() += 1;
+                match check_pair(&norm, &a.raw, &b.raw, &[], false).1 {
+                    Some(f) if f.key.contains("panics") => ps.findings.push(f),
+                    _ => machinery_error(&format!("matchit insert panic for {:?} + {:?} did not reproduce", a.raw, b.raw)),
+                }
+            }
+            let unusable = |d: &Detect| matches!(d, Detect::Panicked { .. } | Detect::NotApplicable);
+            if unusable(&d12) && unusable(&d21) {
+                continue;
+            }
+            // guards are sorted by their (normalised) string, i < j: order 1,2 is the order in
+            // which the generated server inserts.
+            let accepted = d12 == Detect::Accepted || d21 == Detect::Accepted;
+            if accepted && (matches!(d12, Detect::Conflict { .. }) || matches!(d21, Detect::Conflict { .. })) {
+                *ps.hist.entry("(verdict depends on registration order; sorted order builds)").or_default() +=
+                    (d12 == Detect::Accepted) as u64;
+                ps.samples
+                    .entry("(verdict depends on registration order)")
+                    .or_insert_with(|| json!({"g1": a.raw, "g2": b.raw, "order_1_2": format!("{d12:?}"), "order_2_1": format!("{d21:?}")}));
+            }
+            let r12 = if d12 == Detect::Accepted { r12 } else { None };
+            let r21 = if d21 == Detect::Accepted { r21 } else { None };
+            let mut suspicious: Option<Vec<String>> = None;
+            let mut class: Option<PairClass> = None;
+            if matches!(d12, Detect::OtherInsertError { .. })
+                || matches!(d21, Detect::OtherInsertError { .. })
+                || (d21 == Detect::Accepted && matches!(d12, Detect::Conflict { .. }))
+            {
+                suspicious = Some(vec![]);
+            } else if !accepted {
+                let overlap = (0..nw).any(|w| a.m[w] & b.m[w] & !(a.unspec[w] | b.unspec[w]) & mask(w) != 0);
+                class = Some(if same_shape {
+                    PairClass::RejectedEqualSets
+                } else if overlap {
+                    PairClass::RejectedOverlapping
+                } else {
+                    PairClass::RejectedDisjointOnUniverse
+                });
+            } else if same_shape {
+                suspicious = Some(vec![]);
+            } else {
+                let mut shared: Vec<(usize, u32)> = Vec::new();
+                for (h, key) in pair_keys.iter().enumerate().take(nbits) {
+                    if bit(&a.unspec, h) || bit(&b.unspec, h) {
+                        continue;
+                    }
+                    let x12 = r12.as_ref().map(|r| r.at(key).ok().map(|m| *m.value));
+                    let x21 = r21.as_ref().map(|r| r.at(key).ok().map(|m| 1 - *m.value));
+                    ps.lookups += x12.is_some() as u64 + x21.is_some() as u64;
+                    let got = x12.or(x21).unwrap();
+                    let expect_ok = match (bit(&a.m, h), bit(&b.m, h)) {
+                        (false, false) => got.is_none(),
+                        (true, false) => got == Some(0),
+                        (false, true) => got == Some(1),
+                        (true, true) => got.is_some(),
+                    };
+                    let order_ok = match (x12, x21) {
+                        (Some(x), Some(y)) => x == y,
+                        _ => true,
+                    };
+                    if !order_ok || !expect_ok {
+                        suspicious = Some(vec![u.hosts[pair_hosts[h]].raw.clone()]);
+                        break;
+                    }
+                    if bit(&a.m, h) && bit(&b.m, h) {
+                        shared.push((h, got.unwrap()));
+                    }
+                }
+                if suspicious.is_none() {
+                    if shared.is_empty() {
+                        class = Some(PairClass::AcceptedDisjoint);
+                    } else {
+                        class = Some(PairClass::AcceptedStrictSpecificity);
+                        let skip: Vec<u64> = (0..nw).map(|x| a.unspec[x] | b.unspec[x] | !mask(x)).collect();
+                        for (h, w) in &shared {
+                            let (mw, ml) = if *w == 0 { (&a.m, &b.m) } else { (&b.m, &a.m) };
+                            if let Some(x) = (0..nw).find(|&x| mw[x] & !ml[x] & !skip[x] != 0) {
+                                let bitpos = (mw[x] & !ml[x] & !skip[x]).trailing_zeros() as usize;
+                                let h2 = x * 64 + bitpos;
+                                suspicious = Some(vec![
+                                    u.hosts[pair_hosts[*h]].raw.clone(),
+                                    u.hosts[pair_hosts[h2]].raw.clone(),
+                                ]);
+                                class = None;
+                                break;
+                            }
+                        }
+                    }
+                }
+            }
+            if let Some(hosts) = suspicious {
+                let (_, f) = check_pair(&norm, &a.raw, &b.raw, &hosts, true);
+                match f {
+                    Some(f) => ps.findings.push(f),
+                    None => machinery_error(&format!(
+                        "pair finding for {:?} + {:?} on hosts {:?} did not reproduce through the slow path",
+                        a.raw, b.raw, hosts
+                    )),
+                }
+            } else if let Some(c) = class {
+                *ps.hist.entry(c.as_str()).or_default() += 1;
+                if !panicked {
+                    ps.samples.entry(c.as_str()).or_insert_with(|| json!({"g1": a.raw, "g2": b.raw, "class": c.as_str(), "hosts_checked": nbits}));
+                }
+            }
+        }
+        ps
+    });
+    let mut ps = PairStats::default();
+    for r in pair_results {
+        ps.pairs += r.pairs;
+        ps.full_pairs += r.full_pairs;
+        ps.lookups += r.lookups;
+        for (k, v) in r.hist {
+            *ps.hist.entry(k).or_default() += v;
+        }
+        ps.findings.extend(r.findings);
+        for (k, v) in r.samples {
+            ps.samples.entry(k).or_insert(v);
+        }
+    }
+    println!("pairs: {} checked, {} router lookups, classes {:?}, wall {:.1}s", ps.pairs, ps.lookups, ps.hist, rep.wall_s());
+    // slow-path cross-check of the fast path on one sample pair per class (machinery self-test)
+    let all_pair_hosts: Vec<String> = pair_hosts.iter().map(|&hi| u.hosts[hi].raw.clone()).collect();
+    for (k, v) in &ps.samples {
+        if k.starts_with('(') {
+            continue;
+        }
+        let nb = v["hosts_checked"].as_u64().unwrap() as usize;
+        let (c, f) = check_pair(&norm, v["g1"].as_str().unwrap(), v["g2"].as_str().unwrap(), &all_pair_hosts[..nb], false);
+        if f.is_some() || c.map(|c| c.as_str()) != Some(*k) {
+            machinery_error(&format!("pair fast path and slow path disagree on {v}: slow path says {c:?} / {:?}", f.map(|f| f.key)));
+        }
+    }
+    findings.extend(ps.findings.drain(..));
+
+    // ---- report ------------------------------------------------------------------------------
+    collapse_route_keys(&mut findings);
+    // one finding per key, deterministic choice: shortest case text, then lexicographic
+    findings.sort_by_cached_key(|f| {
+        let c = f.case.to_string();
+        (f.key.clone(), c.len(), c)
+    });
+    let total_findings = findings.len();
+    let mut by_key: BTreeMap<String, (Finding, u64)> = BTreeMap::new();
+    for f in findings {
+        by_key.entry(f.key.clone()).and_modify(|e| e.1 += 1).or_insert((f, 1));
+    }
+    for (_, (f, n)) in &by_key {
+        // determinism: re-execute the stored case once through the replay path
+        if replay_quiet(&norm, &f.case).is_none() {
+            machinery_error(&format!("nondeterministic: case {} no longer violates (key {})", f.case, f.key));
+        }
+        rep.violation(&f.key, &format!("{} ({} cases with this key)", f.what, n), f.case.clone());
+    }
+
+    let accepted_total = st.real_accept + edge.real_accept;
+    let overlapping_pairs: u64 = ps
+        .hist
+        .iter()
+        .filter(|(k, _)| !k.contains("disjoint"))
+        .map(|(_, v)| *v)
+        .sum();
+    let route_matches: u64 = st.route_hist.get("real=match,ref=match").copied().unwrap_or(0)
+        + edge.route_hist.get("real=match,ref=match").copied().unwrap_or(0);
+    let evaluations = st.guards + edge.guards + st.route_evals + edge.route_evals + ps.pairs + ps.lookups;
+    let mut samples = st.samples.clone();
+    samples.sort_by_key(|v| std::cmp::Reverse(v["class"].as_str().unwrap_or_default().len()));
+    samples.truncate(8);
+    samples.extend(ps.samples.values().cloned());
+    samples.push(json!({"edge_guard_lengths": edge_list.iter().take(6).map(|g| g.len()).collect::<Vec<_>>(), "first_edge_guard": edge_list.first()}));
+    let coverage = json!({
+        "evaluations": evaluations,
+        "distinct_nontrivial": accepted_total + route_matches + overlapping_pairs,
+        "rule": format!(
+            "Guards: ALL strings of length 0..={gl} over the alphabet {{a,1,-,.,{{,}},*,_}} ({n_enum} strings) plus {n_edge} constructed length edge cases (labels of effective length 62..65, totals 252..255, with plain/param/catch-all labels, long parameter names, with and without trailing dot) and identifier corner cases; each is fed to the real validator + matchit_pattern (hook H4 pavexc::verif_domain_guard) and the accept/reject verdict is compared with a reference validator written from docs/guide/routing/domain_guards.md and the property statement (oracle 1); for accepted guards the parameter names bound by the pattern must be the ones written in the guard and the pattern must insert into matchit 0.9. \
+             Hosts: ALL strings of length 1..={hl} over {{a,b,1,-,.}} plus all hosts of <=3 labels with labels of <={ll} chars, with and without one trailing dot; {wf} are well-formed (no empty label, at most one trailing dot) and get a verdict, {odd} ill-formed ones are observation only. Every accepted guard's real pattern is inserted in a real matchit::Router, every host is normalised exactly as codegen/router.rs::domain_router emits (http Authority::try_from(..).host(), chain `{chain}`, recovered from the generator source at run time and compared with the hard-wired copy) and looked up; the result must equal the reference matcher (literal labels equal; {{p}} = non-empty leading part of one label; leading {{*p}} = one or more labels; one trailing dot ignored on either side) (oracle 2). Outcome `unspecified` (catch-all with literal tail vs a label equal to the tail) is not judged. \
+             Pairs: {pg} distinct normalised accepted guards of length <={pgl} ({shapes} shapes when parameter names are erased). Checked pairs: the FULL square of guards of length <={pfl} on all {ph} well-formed hosts of length <={phl}; of the remaining pairs every same-shape pair and every pair of shape representatives (first guard of each shape; a sound restriction: fewer cases, same oracle) on the {phs} hosts of length <={phsl}. For each pair the real patterns are inserted in a matchit router in both orders exactly like detect_domain_conflicts: no insert may panic or fail with anything but Conflict; if some registration order is accepted, the sorted order (the order the generated domain_router() inserts in) must build too; equal shapes (= equal match sets) must be Conflict; for accepted pairs every host is looked up (by its normalised key) in the router(s): same answer in both orders, none iff the reference says neither guard matches, the only matching guard if exactly one matches, and if both match the winner's reference match set must be a subset of the loser's on the host universe (strict specificity, the reading forced by upstream's accepted admin.company.com + {{sub}}.company.com) (oracle 3). Pairs rejected in only one registration order and rejected-but-disjoint pairs are counted, not judged. \
+             Non-trivial = accepted guards + (guard,host) evaluations where the host really is routed to the guard + guard pairs whose match sets overlap (rejected or accepted).",
+            gl = cfg.guard_len, n_enum = enumerated_guards, n_edge = edge.guards, hl = cfg.host_len, ll = cfg.host_label_len,
+            wf = u.hosts.len(), odd = u.odd.len(), chain = norm.chain_text, pg = pgs.len(), pgl = cfg.pair_guard_len,
+            shapes = rep_of_shape.len(),
+            pfl = cfg.pair_full_len, ph = n_all, phl = cfg.pair_host_len, phs = n_small, phsl = cfg.pair_host_len_small,
+        ),
+        "samples": samples,
+        "exhaustive": true,
+        "bounds": {
+            "guard_len": cfg.guard_len, "pair_guard_len": cfg.pair_guard_len, "host_len": cfg.host_len,
+            "host_label_len": cfg.host_label_len, "pair_host_len": cfg.pair_host_len,
+            "pair_full_len": cfg.pair_full_len, "pair_host_len_small": cfg.pair_host_len_small, "caps_hit": false,
+        },
+        "outcome_histogram": {
+            "validator_real": {"accepted": st.real_accept, "rejected_by_error_class": st.real_reject},
+            "validator_reference_reject_reasons": st.ref_reject,
+            "accepted_guards_by_class": st.accepted_by_class,
+            "route": st.route_hist,
+            "accepted_guards_routing_at_least_one_host": st.guards_matching_some_host,
+            "pairs": ps.hist,
+            "edge_cases": edge_counts,
+        },
+        "counts": {
+            "guard_strings_enumerated": enumerated_guards,
+            "edge_guards": edge.guards,
+            "hosts_well_formed": u.hosts.len(),
+            "hosts_distinct_normalised": u.keys.len(),
+            "guard_host_evaluations": st.route_evals + edge.route_evals,
+            "pair_guards": pgs.len(),
+            "pair_shapes": rep_of_shape.len(),
+            "pairs_checked": ps.pairs,
+            "pairs_checked_full_square_part": ps.full_pairs,
+            "pair_hosts": n_all,
+            "pair_hosts_small": n_small,
+            "pair_router_lookups": ps.lookups,
+            "findings_before_key_collapse": total_findings,
+        },
+        "observations_not_judged": {
+            "what": "hosts that are not well-formed names (empty label / several trailing dots): how often a single accepted guard's router routes them; DESIGN §7 item 7: the generated normalisation strips ALL trailing dots although the guide says one",
+            "ill_formed_hosts": st.odd_hist,
+        },
+        "conflict_detector_model": format!("{:?}", detector()),
+        "generated_normalisation": {
+            "source": norm.source_file, "chain": norm.chain_text, "identical_to_expected": norm.identical_to_expected,
+        },
+    });
+    let code = rep.finish(
+        "exploration",
+        coverage,
+        &[
+            "the in-process router built from H4's pattern is the router the generated server builds (domain_router_init inserts guard.matchit_pattern() verbatim); the generated code itself runs only in the e2e half",
+            "the replica of the generated host normalisation is kept in sync by a run-time comparison with the text of codegen/router.rs (unknown steps are a machinery error, known steps are followed)",
+            "hosts that are not well-formed DNS names (empty labels, more than one trailing dot) are outside the property's quantifier and only counted",
+            "parameter VALUES captured by the router (they come out reversed character-wise) are not part of C20 and are not checked",
+            "linking matchit 0.9.0 and http 1.4.0 as pinned by /repo/Cargo.lock",
+        ],
+    );
+    std::process::exit(code);
+}
+
+/// Re-execute one stored case; returns the key of the finding it yields (if any).
+fn replay_quiet(norm: &GeneratedNormaliser, case: &Value) -> Option<String> {
+    let s = |k: &str| case.get(k).and_then(|v| v.as_str()).unwrap_or_default().to_string();
+    match case.get("kind").and_then(|k| k.as_str()) {
+        Some("validator") => check_validator(&s("guard")).map(|f| f.key),
+        Some("route") => check_route(norm, &s("guard"), &s("host")).2.map(|f| f.key),
+        Some("pair") => {
+            let hosts: Vec<String> = case
+                .get("hosts")
+                .and_then(|h| h.as_array())
+                .map(|a| a.iter().filter_map(|x| x.as_str().map(|s| s.to_string())).collect())
+                .unwrap_or_default();
+            let skip = case.get("skip_panic").and_then(|v| v.as_bool()).unwrap_or(false);
+            check_pair(norm, &s("g1"), &s("g2"), &hosts, skip).1.map(|f| f.key)
+        }
+        _ => machinery_error(&format!("replay case of unknown kind: {case}")),
+    }
+}
+
+fn replay(norm: &GeneratedNormaliser, case: &Value) -> i32 {
+    println!("replaying {case}");
+    let s = |k: &str| case.get(k).and_then(|v| v.as_str()).unwrap_or_default().to_string();
+    let finding = match case.get("kind").and_then(|k| k.as_str()) {
+        Some("validator") => {
+            let g = s("guard");
+            println!("  observed (real validator via H4): {:?}", subject::real_guard(&g));
+            println!("  expected (reference validator):   {:?}", reference::validate(&g).map(|g| g.class()).map_err(|e| e.as_str()));
+            check_validator(&g)
+        }
+        Some("route") => {
+            let (g, h) = (s("guard"), s("host"));
+            let (real, refv, f) = check_route(norm, &g, &h);
+            println!("  guard {g:?} -> {:?}", subject::real_guard(&g));
+            println!("  host {h:?} -> normalised {:?}", norm.apply(h.as_bytes()));
+            println!("  observed (real matchit router): routed = {real:?}");
+            println!("  expected (reference matcher):   {:?}", refv.map(verdict_str));
+            f
+        }
+        Some("pair") => {
+            let hosts: Vec<String> = case
+                .get("hosts")
+                .and_then(|h| h.as_array())
+                .map(|a| a.iter().filter_map(|x| x.as_str().map(|s| s.to_string())).collect())
+                .unwrap_or_default();
+            let (g1, g2) = (s("g1"), s("g2"));
+            let (p1, p2) = (subject::real_guard(&g1), subject::real_guard(&g2));
+            println!("  {g1:?} -> {p1:?}\n  {g2:?} -> {p2:?}");
+            if let (Real::Accepted { pattern: p1 }, Real::Accepted { pattern: p2 }) = (&p1, &p2) {
+                let runtime_is_12 = g1.trim_end_matches('.') <= g2.trim_end_matches('.');
+                let (d12, r12) = detect_pair((&g1, p1), (&g2, p2), runtime_is_12);
+                let (d21, r21) = detect_pair((&g2, p2), (&g1, p1), !runtime_is_12);
+                println!("  observed conflict detector: order 1,2 -> {d12:?}; order 2,1 -> {d21:?}");
+                if let (Ok(r1), Ok(r2)) = (reference::validate(&g1), reference::validate(&g2)) {
+                    for h in &hosts {
+                        let hh = Host::new(h);
+                        if !hh.well_formed {
+                            continue;
+                        }
+                        let got = match (&r12, &r21) {
+                            (Some(r), _) if d12 == Detect::Accepted => norm.apply(h.as_bytes()).and_then(|n| r.at(&n).ok().map(|m| *m.value)),
+                            (_, Some(r)) if d21 == Detect::Accepted => norm.apply(h.as_bytes()).and_then(|n| r.at(&n).ok().map(|m| 1 - *m.value)),
+                            _ => None,
+                        };
+                        println!(
+                            "  host {h:?}: observed winner = {:?}; reference: fits g1 = {}, fits g2 = {}",
+                            got.map(|w| if w == 0 { &g1 } else { &g2 }),
+                            verdict_str(reference::matches(&r1, &hh)),
+                            verdict_str(reference::matches(&r2, &hh))
+                        );
+                    }
+                }
+            }
+            let skip = case.get("skip_panic").and_then(|v| v.as_bool()).unwrap_or(false);
+            let (c, f) = check_pair(norm, &g1, &g2, &hosts, skip);
+            println!("  pair class: {:?}", c.map(|c| c.as_str()));
+            f
+        }
+        _ => machinery_error(&format!("replay case of unknown kind: {case}")),
+    };
+    match finding {
+        Some(f) => {
+            println!("  STILL VIOLATES: {} [key={}]", f.what, f.key);
+            1
+        }
+        None => {
+            println!("  no violation: observed outcome equals expected outcome");
+            0
+        }
+    }
+}
